@@ -20,7 +20,6 @@ TRUSTED = ["strings are modelled as lists of Unicode code points; invalid UTF-8 
            "point by the 'runes cy/cl' cases)",
            "sweep digest: the OCaml driver expands the class table to 4096x4096 with the extracted rep/s_cuts/c_cuts "
            "(C14_lookup_via_representative); run-length encoding and md5 are driver/harness glue on both sides"]
-VARIANTS = ["repaired", "defective"]   # repaired: ValidateMatchIndex rejects unparseable ranges; defective: skips them
 ASSUMPTIONS = ["group names in generated configurations are valid UTF-8 (Go compares UTF-8 bytes, the model compares "
                "code points; the two orders coincide for valid UTF-8)"]
 
@@ -199,19 +198,6 @@ def _split(o):
 
 def _kv(s):
     return dict(x.split("=", 1) for x in s.split() if "=" in x)
-
-
-def signature(case, impl, models):
-    """impl matches only the 'defective' model: ValidateMatchIndex accepted (or reported a later collision for) a
-    configuration in which the repaired validation stops at an unparseable svlan / cvlan string."""
-    k = case.split(" ", 1)[0]
-    if k not in ("cfg", "cfgnil", "sweep"):
-        return None
-    iv, ir = _split(impl)
-    rv, rr = _split(models["repaired"])
-    if ir != rr or not rv.startswith("malformed ") or iv.startswith("malformed "):
-        return None
-    return "ValidateMatchIndex:malformed-%s-skipped" % rv.split()[-1]
 
 
 def nontrivial(case, out):
